@@ -301,6 +301,8 @@ func verifSetup(e *verifEnv, m *verifModel, which int) {
 		script(verifOp{kind: opCreateBucket})
 		verifSetVersioning(e, m, 2)
 		script(verifOp{kind: opPut, key: 0, body: x, ct: 1})
+	case 9: // pending upload on a holding only part 2 (a gap)
+		script(verifOp{kind: opCreateBucket}, verifOp{kind: opMPCreate, key: 0, ct: 2}, verifOp{kind: opMPPart, part: 2, body: y})
 	case 8: // a and b with independently written (possibly identical) content
 		script(verifOp{kind: opCreateBucket}, verifOp{kind: opPut, key: 0, body: x}, verifOp{kind: opPut, key: 1, body: y})
 	}
